@@ -300,3 +300,61 @@ def run(ctx):
         done = True
     if not done:
         raise Broken("C12.R5: anchor vanished")
+
+    # ------------------------------------------------------------------ R6
+    # agreement of siblings: what the parser accepts, the library's own callers (the validity predicates, the UX
+    # transport) must be able to take - their scratch buffers are never the reason for a rejection
+    r6 = ctx.rule("C12.R6", "the library's own callers of the name parsers pass buffers that hold every name the parser accepts")
+    lim = {}          # parser function -> (index of the capacity parameter, largest accepted length K)
+    for f in P.fns_in("core/xcm_addr.c"):
+        K, capi = None, None
+        for b, cond in C.cond_blocks(f):
+            l, op, r = C.cond_atom(f, cond, True)
+            ln = f.sn(l)
+            if not (ln["k"] == "call" and ln.get("callee") == "strlen") or isinstance(r, tuple):
+                continue
+            cv = C.const_of(f, r)
+            rn = f.sn(r)
+            if cv is not None and op in (">", ">=") and cv > 1:
+                K = cv if op == ">" else cv - 1
+            elif rn["k"] == "ref" and rn.get("dk") == "param" and op in (">=", ">"):
+                capi = ([i for i, p in enumerate(f.params) if p["name"] == rn["name"]][0], 1 if op == ">=" else 0)
+        if K is not None and capi is not None:
+            lim[f] = (capi[0], K + capi[1])        # the capacity needed for the longest accepted name
+    if not lim:
+        raise Broken("C12.R6: no parser with a name limit and a capacity parameter found")
+    # wrappers that pass their own capacity parameter through
+    changed = True
+    while changed:
+        changed = False
+        for f in P.fns_in("core/xcm_addr.c"):
+            if f in lim:
+                continue
+            for c in f.calls():
+                for d in P.callees(f, c)[0]:
+                    if d in lim and lim[d][0] < len(f.nodes[c]["args"]):
+                        a = f.nodes[f.origin(f.nodes[c]["args"][lim[d][0]])]
+                        if a["k"] == "ref" and a.get("dk") == "param":
+                            lim[f] = ([i for i, p in enumerate(f.params) if p["name"] == a["name"]][0], lim[d][1])
+                            changed = True
+    nsite = 0
+    for f in P.functions:
+        for c in f.calls():
+            for d in P.callees(f, c)[0]:
+                if d not in lim or f in lim:
+                    continue
+                idx, need = lim[d]
+                if idx >= len(f.nodes[c]["args"]):
+                    continue
+                cap = C.const_of(f, f.nodes[c]["args"][idx])
+                if cap is None:
+                    continue
+                nsite += 1
+                r6.instance("%s -> %s(capacity %d)" % (f.qname, d.name, cap))
+                if cap >= need:
+                    r6.ok("%s gives %s room for %d bytes; the longest accepted name needs %d" % (f.name, d.name, cap, need), "constant comparison")
+                else:
+                    r6.violation("%s:%s:buffer-smaller-than-limit" % (f.name, d.name), "%s hands %s a %d-byte buffer although the parser accepts names that need %d: an address every "
+                                 "other function accepts (make, parse, server, connect) is rejected here" % (f.name, d.name, cap, need), loc=f.loc(c))
+    if nsite < 4:
+        raise Broken("C12.R6: only %d internal call sites with a constant capacity" % nsite)
